@@ -523,6 +523,17 @@ func (c *gctx) orNode(i int, label string) *ref.SNode {
 // GraphInstance draws a document aimed at being accepted at node n.
 func (gc *GraphCase) Instance(t *rapid.T, n *ref.SNode, keysOpt bool, budget int, label string) *ref.Value {
 	g := gc.G
+	if budget < 0 {
+		// out of budget below a required inline container (e.g. a type without a finite inhabitant
+		// because an object inherits from a type that encloses it): stop here
+		switch n.Kind {
+		case ref.SObj:
+			return &ref.Value{Kind: ref.KObject}
+		case ref.SArr:
+			return &ref.Value{Kind: ref.KArray}
+		}
+		return Null()
+	}
 	if v, ok := n.BoolRule("nullable"); ok && v && rapid.IntRange(0, 5).Draw(t, label+"Null") == 0 {
 		return Null()
 	}
